@@ -1,19 +1,56 @@
+// probe prints, for every SQL line on stdin, the projected tree of the real parser and what the serialisers
+// print for it (a development aid for writing model trees; not a check).
 package main
 
 import (
+	"bufio"
 	"fmt"
 	"os"
+
 	"github.com/ajitpratap0/GoSQLX/pkg/gosqlx"
+	"github.com/ajitpratap0/GoSQLX/pkg/sql/keywords"
+	"github.com/ajitpratap0/GoSQLX/pkg/sql/parser"
+
 	"verif/internal/project"
 )
 
 func main() {
-	for _, s := range os.Args[1:] {
-		t, err := gosqlx.Parse(s)
-		if err != nil {
-			fmt.Printf("%s\n   ERR %.150v\n", s, err)
+	dialect := ""
+	if len(os.Args) > 1 {
+		dialect = os.Args[1]
+	}
+	sc := bufio.NewScanner(os.Stdin)
+	sc.Buffer(make([]byte, 1<<20), 1<<24)
+	for sc.Scan() {
+		sql := sc.Text()
+		if sql == "" {
 			continue
 		}
-		fmt.Printf("%s\n   %s\n", s, project.String(t.Statements))
+		fmt.Println("SQL  ", sql)
+		tree, err := gosqlx.Parse(sql)
+		if dialect != "" {
+			tree, err = parser.ParseWithDialect(sql, keywords.SQLDialect(dialect))
+		}
+		if err != nil {
+			fmt.Println("ERR  ", firstLine(err.Error()))
+			continue
+		}
+		fmt.Println("TREE ", project.String(tree.Statements))
+		out := tree.SQL()
+		fmt.Println("OUT  ", out)
+		if t2, err := gosqlx.Parse(out); err != nil {
+			fmt.Println("RT   rejected:", firstLine(err.Error()))
+		} else if project.String(t2.Statements) != project.String(tree.Statements) {
+			fmt.Println("RT   differs:", project.String(t2.Statements))
+		}
 	}
+}
+
+func firstLine(s string) string {
+	for i, c := range s {
+		if c == '\n' {
+			return s[:i]
+		}
+	}
+	return s
 }
